@@ -82,8 +82,19 @@ func (r ReferenceStorage) IterReferences() (storer.ReferenceIter, error) {
 		return nil, err
 	}
 
+	// Of the base, show only what the transaction has neither deleted nor
+	// overwritten: a deleted name must not be listed, and an overwritten one
+	// must be listed once, with its pending value.
+	visible := storer.NewReferenceFilteredIter(func(ref *plumbing.Reference) bool {
+		if _, deleted := r.deleted[ref.Name()]; deleted {
+			return false
+		}
+		_, err := r.temporal.Reference(ref.Name())
+		return err == plumbing.ErrReferenceNotFound
+	}, baseIter)
+
 	return storer.NewMultiReferenceIter([]storer.ReferenceIter{
-		baseIter,
+		visible,
 		temporalIter,
 	}), nil
 }
